@@ -24,7 +24,7 @@ STUBS = sc.STUBS
 FAMILIES = {'stream': ['sync_tcp', 'aio_tcp', 'tw_tcp'], 'dgram': ['sync_udp', 'aio_udp', 'tw_udp']}
 PROFILE = {'invalid_rate': 0.12, 'opaque_rate': 0.0, 'unknown_unit_rate': 0.12, 'multi_rate': 0.4, 'broadcast_rate': 0.0,
            'max_conns': 3, 'max_reqs': 6, 'pipeline_rate': 0.0, 'allow_tls': False, 'cut_rate': 0.15, 'custom_rate': 0.1, 'peer_close_rate': 0.1,
-           'dgram_dup_rate': 0.06}
+           'dgram_dup_rate': 0.06, 'socket_timeout_rate': 0.2}
 IDENT = [bytes([43, 14, 1, 0]), bytes([43, 14, 2, 0]), bytes([43, 14, 4, 1]), bytes([17])]
 
 
